@@ -10,6 +10,7 @@ import DelbDriver.Nav
 import DelbDriver.Guards
 import DelbDriver.Clone
 import DelbDriver.XPathEval
+import DelbDriver.Attrs
 open Lean DelbDriver
 
 def dispatch (j : Json) : Except String Json := do
@@ -28,6 +29,7 @@ def dispatch (j : Json) : Except String Json := do
   | "xpath" => handleXPath j
   | "locpath" => handleLocPath j
   | "foc" => handleFoc j
+  | "attrs" => handleAttrs j
   | "tokenize" => handleTokenize j
   | "reduce_content" => handleReduceContent j
   | _ => throw s!"unknown cmd {cmd}"
